@@ -1,6 +1,6 @@
 """Per-property specifications: generators, projections, shrinkers, evidence texts."""
 import os
-from . import build, gen_codec, gen_rope
+from . import build, gen_codec, gen_rope, gen_tree, gen_hist
 from .common import Case
 
 class Spec:
@@ -156,7 +156,93 @@ C16 = Spec('C16',
     assumptions=['slice::binary_search_by is modelled by its contract on strictly increasing keys'],
 )
 
-REGISTRY = {'C12': C12, 'C16': C16}
+# ---------------- tree properties ----------------
+TREE_KEYS_TEXT = ['src', 'buf', 'size', 'rope', 'wr']
+STREAM_KEYS = ['e10', 'g10', 'e00', 'g00', 'e11', 'g11', 'e01', 'g01']
+MAP_KEYS = ['m1', 'm0']
+
+def tree_kind(proj):
+    return {'tree': {'ser': gen_tree.ser_tree, 'proj': proj, 'shrink': gen_tree.shrink_tree}}
+
+def gen_c01(rng, tier):
+    n = 2500 if tier == 'quick' else 100000
+    out = []
+    cfgs = [gen_tree.Cfg(ascii=True), gen_tree.Cfg(ascii=False, bufs=0.15, invalid_utf8=0.3),
+            gen_tree.Cfg(ascii=True, sms=0.4, wild=0.5), gen_tree.Cfg(ascii=False, sms=0.3, wild=0.3, inner=0.2)]
+    for i in range(n):
+        out.append(gen_tree.gen_tree_case(rng, cfgs[i % len(cfgs)]))
+    return out
+
+C01 = Spec('C01',
+    kinds=tree_kind(['src', 'e10', 'e00']),
+    gen=gen_c01,
+    rule='random source trees (depth <= 4) over Raw/RawString/RawBuffer/Original/SourceMapSource/Concat/Replace/Cached; ASCII and 1-4 byte UTF-8 texts; replacement sets on char boundaries incl. overlapping, nested, touching, beyond end; consistent and wild (sorted, outside the text) maps; warm caches; non-trivial = depth >= 1 and output length >= 2',
+    explanation='Props/C01.v states reassembly on the Gallina stream model; correspondence compares chunk streams (texts, positions, announcements) and source() of model and Rust crate on the same trees; chk_C01 judges the implementation stream directly',
+    checker_name='ChkTree.chk_C01', model_name='Stream/Tree.v',
+)
+
+def gen_ascii_trees(rng, tier, nq=2500, nt=100000, cfgs=None):
+    n = nq if tier == 'quick' else nt
+    cfgs = cfgs or [gen_tree.Cfg(ascii=True), gen_tree.Cfg(ascii=True, sms=0.35), gen_tree.Cfg(ascii=True, replace=0.4, cached=0.05),
+                    gen_tree.Cfg(ascii=True, sms=0.3, inner=0.3)]
+    return [gen_tree.gen_tree_case(rng, cfgs[i % len(cfgs)]) for i in range(n)]
+
+TREE_RULE = 'random ASCII source trees (depth <= 4) over Raw*/Original/SourceMapSource(consistent maps, 1-3 sources, names, sourceRoot variants)/Concat(typed, boxed, add-later)/Replace(0-4 replacements: overlapping, nested, touching, beyond end, deleting/inserting line breaks, named)/Cached(cold or warmed by map/stream in any option set); non-trivial = depth >= 1 and output length >= 2; distinct = distinct case text'
+
+def tree_spec(pid, proj, gen, checker, explanation):
+    return Spec(pid, kinds=tree_kind(proj), gen=gen, rule=TREE_RULE, explanation=explanation,
+                checker_name=checker, model_name='Stream/Tree.v')
+
+C02 = tree_spec('C02', ['src'] + STREAM_KEYS, gen_ascii_trees, 'ChkTree.chk_C02',
+    'theorems about positions on the Gallina stream model; correspondence compares all four chunk streams incl. generated positions and end info; chk_C02 recomputes the true position of every chunk from the text')
+C03 = tree_spec('C03', ['src', 'e10', 'e00', 'm1', 'm0'], gen_ascii_trees, 'ChkTree.chk_C03',
+    'attribution semantics Sem/Attr.v; chk_C03 compares per output byte the attribution through map() with the attribution by the covering chunk, and map()=None iff no mapped chunk')
+C07 = tree_spec('C07', TREE_KEYS_TEXT, lambda rng, tier: gen_c01(rng, tier), 'ChkTree.chk_C07',
+    'text views of the model (source, buffer, size, rope, to_writer payloads) vs the crate; chk_C07 states the agreement clauses')
+C08 = tree_spec('C08', ['src'] + STREAM_KEYS + MAP_KEYS, None, 'ChkTree.chk_C08',
+    'chk_C08 compares the attribution of all four streams of a SourceMapSource / user-defined source with looking positions up in the given map')
+C11 = tree_spec('C11', STREAM_KEYS + MAP_KEYS, gen_ascii_trees, 'ChkTree.chk_C11',
+    'chk_C11: announced indices dense and announced before use in all four streams; map() segments strictly increasing, inside the text, indices inside tables, alphabet')
+
+def gen_c08(rng, tier):
+    n = 2500 if tier == 'quick' else 100000
+    out = []
+    for i in range(n):
+        g = gen_tree.Gen(rng, gen_tree.Cfg(ascii=True, names=0.5, root=0.5))
+        t = g.sms('usr' if i % 3 == 0 else 'sms')
+        feats = {'nontrivial'} if len(t[1]) >= 2 and t[3]['segs'] else set()
+        if i % 5 == 4:
+            t = ('concat', 'new', [(False, ('raws', g.text())), (False, t)])
+        out.append(Case('tree', {'t': t, 'warm': []}, feats | gen_tree.kinds_of(t, set())))
+    return out
+C08.gen = gen_c08
+
+def gen_c05(rng, tier):
+    n = 3000 if tier == 'quick' else 150000
+    out = [gen_hist.gen_rhist_case(rng) for _ in range(n)]
+    if tier == 'thorough':
+        # exhaustive small scope: all histories of <= 3 mutators over a 3-char text, observer at every gap
+        import itertools
+        inner = ('raws', 'a\nb')
+        muts = [(s, e, c, None, enf) for s in range(0, 4) for e in range(s, 5) if e <= 4 for c in ('', 'x') for enf in (0, 1, 2)]
+        small = [m for m in muts if m[4] == 1 or m[0] == m[1]]
+        for k in (1, 2):
+            for combo in itertools.product(small[:18], repeat=k):
+                ops = []
+                for m in combo:
+                    ops.append(('mut',) + m); ops.append(('obs', 0))
+                out.append(Case('rhist', {'inner': inner, 'ops': ops}, {'nontrivial', 'exhaustive_scope'}))
+    return out
+
+C05 = Spec('C05',
+    kinds={'rhist': {'ser': gen_hist.ser_rhist, 'proj': None, 'shrink': gen_hist.shrink_rhist}},
+    gen=gen_c05,
+    rule='histories of 1-9 calls on a ReplaceSource over a random inner leaf/tree (ASCII and multi-byte, lossy-decoded buffers): replace/insert/replace_with_enforce/insert_with_enforce with colliding (start,end) keys, overlaps, nesting, positions beyond the end; observers source/buffer/size/rope/to_writer/hash/stream/map and clone between any two mutators; non-trivial = at least 2 mutators',
+    explanation='Props/C05.v: the object model with its lazily sorted index refines the reference replacement model written from the property text; correspondence compares the text every observer renders after every call; chk_C05 judges the implementation against the reference model',
+    checker_name='ChkReplace.chk_C05', model_name='Sem/ReplaceObj.v + Stream/Replace.v',
+)
+
+REGISTRY = {'C12': C12, 'C16': C16, 'C01': C01, 'C05': C05, 'C02': C02, 'C03': C03, 'C07': C07, 'C08': C08, 'C11': C11}
 
 def get(pid):
     return REGISTRY[pid]
